@@ -334,7 +334,13 @@ class Engine(ExprMixin, CallMixin, StmtMixin):
         res = o.val if o.kind == "return" else VNONE
         if c.result is not None:
             if isinstance(res, Val) and res.sort != c.result:
-                res = self.coerce(res, c.result, fn)
+                from .sorts import OptSort, opt_val
+                if isinstance(res.sort, OptSort) and res.sort.inner == c.result:
+                    # an Optional value returned where the contract promises a value: it must not be None here
+                    self.oblige(o.st, "post", "result-is-not-None", z3.Not(res.t[0]), fn)
+                    res = opt_val(res)
+                else:
+                    res = self.coerce(res, c.result, fn)
         env = dict(entry_env)
         env["result"] = res
         # expose final values of locals declared as ghost-visible
